@@ -316,6 +316,17 @@ fn check_emitters(run: &Run, cases: u64) {
         let src = sc.join("src");
         tree::sync_to_disk(None, &spec, &src).expect("materialise");
         let snap = tree::snapshot(&src).expect("snapshot");
+        // names that are not UTF-8 (two Latin-1 names that differ in one byte, side by side): such
+        // names have no apath; whatever is done with them, what is emitted stays strictly
+        // increasing. They are added after the snapshot and are not part of the expected set.
+        let non_utf8 = case % 4 == 1;
+        if non_utf8 {
+            use std::os::unix::ffi::OsStrExt;
+            for name in [&b"caf\xe9"[..], &b"caf\xe8"[..], &b"\xffz"[..]] {
+                let _ = std::fs::write(src.join(std::ffi::OsStr::from_bytes(name)), b"");
+            }
+            run.count("trees_with_names_that_are_not_utf8", 1);
+        }
         // 1. the source walk
         let src2 = src.clone();
         let walked = guard(move || {
@@ -348,6 +359,11 @@ fn check_emitters(run: &Run, cases: u64) {
         w.sort();
         let mut expect: Vec<String> = snap.keys().cloned().collect();
         expect.sort();
+        if non_utf8 {
+            // entries for such names, if any, are not judged as a set
+            w.retain(|p| expect.binary_search(p).is_ok());
+            expect.retain(|p| w.binary_search(p).is_ok() || !p.contains('\u{fffd}'));
+        }
         if w != expect {
             run.violation(
                 "source-walk-wrong-set",
@@ -516,7 +532,7 @@ pub fn run(tier: Tier, replay: Option<Value>) -> i32 {
     check_random_pairs(&run, tier.pick(300_000, 3_000_000));
     super::alongside(&run, "the many-hunks listing", || many_hunks(&run), || check_emitters(&run, tier.pick(400, 6000)));
     run.finish(
-        "validity: every string over a 13-component alphabet (incl. '', '.', '..', NUL, bytes below and above '/') up to the stated depth, with and without leading/trailing slash; order: all pairs and triples of valid paths over two alphabets (exhaustive) + random longer paths; emitters: generated trees walked, backed up with small hunks, decoded independently and listed; for every second tree two or three further backups are killed before a write (with even odds before the same write as the previous one) and every version, now stitched from up to four indexes, is listed again; one tree of 10 040 files is backed up with one entry per hunk (two index subdirectories) and its index and listing checked the same way. Distinct non-trivial = distinct unordered pairs of different paths compared + distinct generated trees.",
+        "validity: every string over a 13-component alphabet (incl. '', '.', '..', NUL, bytes below and above '/') up to the stated depth, with and without leading/trailing slash; order: all pairs and triples of valid paths over two alphabets (exhaustive) + random longer paths; emitters: generated trees (a quarter of them with extra names that are not UTF-8: two Latin-1 names differing in one byte) walked, backed up with small hunks, decoded independently and listed; for every second tree two or three further backups are killed before a write (with even odds before the same write as the previous one) and every version, now stitched from up to four indexes, is listed again; one tree of 10 040 files is backed up with one entry per hunk (two index subdirectories) and its index and listing checked the same way. Distinct non-trivial = distinct unordered pairs of different paths compared + distinct generated trees.",
         &["the documented order is as restated in oracle::apath_key (doc/format.md)", "snap/serde_json decode written hunks correctly"],
         Some(true),
         &[("pairs_compared", 1000), ("triples_checked", 1000), ("validity_strings_checked", 1000), ("source_walks", 10), ("hunk_entries_decoded", 50), ("stitched_listings_checked", 50), ("listings_of_more_than_10000_hunks_checked", 1)],
